@@ -279,6 +279,10 @@ class Sim:
         self.received: list = []
         self.status: list = []
         self.recv_after_close_returned = 0
+        self.callbacks_replaced = False
+        self.old_cb_calls_after_replacement = 0
+        self.new_status_cb_calls = 0
+        self.new_recv_cb_calls = 0
         self.on_close_return = []
         self.close_returned = False
         self.heartbeat_ticks = 0
@@ -354,7 +358,23 @@ class Sim:
             self.state_changes.append((self.loop.steps, st.name))
             self.ev("state_sample", state=st.name)
 
-    async def _on_status(self, state):
+    def replace_callbacks(self):
+        """The application registers new callbacks mid-session: from now on only they may be called."""
+        self.callbacks_replaced = True
+
+        async def status_b(state):
+            self.new_status_cb_calls += 1
+            await self._on_status(state, _new=True)
+
+        async def recv_b(msg):
+            self.new_recv_cb_calls += 1
+            await self._on_receive(msg, _new=True)
+        self.client.set_status_callback(self._styled(status_b))
+        self.client.set_receive_callback(self._styled(recv_b))
+
+    async def _on_status(self, state, _new=False):
+        if self.callbacks_replaced and not _new:
+            self.old_cb_calls_after_replacement += 1
         self.status.append(state.name)
         self.ev("status", state=state.name)
         if self.status_cb_mode == "raise":
@@ -368,7 +388,9 @@ class Sim:
         if self.status_cb_mode == "slow_closed" and state.name == "CLOSED":
             await asyncio.sleep(0.3)
 
-    async def _on_receive(self, msg):
+    async def _on_receive(self, msg, _new=False):
+        if self.callbacks_replaced and not _new:
+            self.old_cb_calls_after_replacement += 1
         self.recv_cb_calls += 1
         if self.close_returned:
             self.recv_after_close_returned += 1
